@@ -122,6 +122,8 @@ class Acc(object):
         if res.excluded:
             self.excluded[res.excluded] += 1
         if res.nontrivial and not res.failures:
+            if isinstance(case, dict) and case.get("draft") in (3, 4, 6, 7):
+                self.labels["nontrivial:draft%d" % case["draft"]] += 1     # a flavour valid in one draft only is vacuous in three
             dg = digest(case if res.nt_key is None else res.nt_key)
             if dg not in self.nt:
                 self.nt.add(dg)
@@ -579,6 +581,9 @@ def main_check(pid, tier, seed, replay=None):
         for label, need in prop.GATES.items():
             if acc.labels.get(label, 0) < need * mult * min(scale, 1.0):
                 gate_fail.append("%s=%d<%d" % (label, acc.labels.get(label, 0), need * mult))
+        per_draft = [acc.labels.get("nontrivial:draft%d" % d, 0) for d in (3, 4, 6, 7)]
+        if sum(per_draft) >= 200 and min(per_draft) * 25 < sum(per_draft) and not getattr(prop, "ONE_DRAFT_OK", False):
+            gate_fail.append("non-trivial cases per draft %r: one draft has less than 4%% of them" % (per_draft,))
         gate_fail.extend(prop.gate(acc, tier))
         if len(acc.nt) < prop.MIN_NONTRIVIAL:
             gate_fail.append("distinct_nontrivial=%d<%d" % (len(acc.nt), prop.MIN_NONTRIVIAL))
